@@ -10,6 +10,7 @@ import (
 	"time"
 
 	command "github.com/rqlite/rqlite/v10/command/proto"
+	"github.com/rqlite/rqlite/v10/internal/vhook"
 )
 
 // SwappableDB is a wrapper around DB that allows the underlying database to be swapped out
@@ -58,12 +59,15 @@ func (s *SwappableDB) Swap(path string, fkConstraints, walEnabled bool) error {
 	if err := s.db.Close(); err != nil {
 		return fmt.Errorf("failed to close: %s", err)
 	}
+	vhook.Point("swap.after_close")
 	if err := RemoveFiles(s.db.Path()); err != nil {
 		return fmt.Errorf("failed to remove files: %s", err)
 	}
+	vhook.Point("swap.after_remove")
 	if err := os.Rename(path, s.db.Path()); err != nil {
 		return fmt.Errorf("failed to rename database: %s", err)
 	}
+	vhook.Point("swap.after_rename")
 
 	db, err := OpenWithDriver(s.drv, s.db.Path(), fkConstraints, walEnabled)
 	if err != nil {
